@@ -6,6 +6,7 @@ import Proofs.Lemmas.StrShunt
 import Proofs.Lemmas.StrRound
 import Proofs.Lemmas.StrFormat
 import Proofs.Lemmas.StrTokenize
+import Proofs.Lemmas.StrNegBase
 /-!
 # C16: printing an equation in the sympy format and parsing it back gives the same function
 
@@ -47,6 +48,15 @@ theorem bin_templates :
 
 /-- the tokenizer rewrites `**` to `^` (and `)(` to `)*(`, which never occurs in a sympy string) -/
 theorem replacements_pinned : replacements = [(")(", ")*("), ("**", "^")] := by decide
+
+/-- the three regex passes of the tokenizer, in order, with their replacement templates (the second one is the
+repair of F11b) -/
+theorem sub_passes_pinned :
+    subOrder = ["negative_pattern", "negative_base_pattern", "non_unary_op_pattern"] ∧
+    negative_pattern = "-([^\\s\\d])" ∧ negative_repl = "-1 * \\1" ∧
+    negative_base_pattern = "(?<![\\d.][eE])-((?:\\d+\\.?\\d*|\\.\\d+)(?:[eE][+-]?\\d+)?\\s*\\^)" ∧
+    negative_base_repl = "-1 * \\1" ∧
+    non_unary_op_pattern = "([*/^()])" ∧ non_unary_op_repl = " \\1 " := by decide
 
 /-- the operator token of a binary node is an operator of the parser mapped back to the node
 (SAFE_POWER is printed with `abs(·)` and the POWER token) -/
@@ -245,8 +255,40 @@ theorem roundtrip_format (val : String → ℝ) (D L : Nat) (s : Stack) (consts 
 
 /-! ## H. documentation examples -/
 
-/-- known defect F11b: `-2**X_0` is read as `(-2.0)**X_0` (constant `-2`), not as `-(2**X_0)` -/
-example : parse "-2**X_0" = .ok ([⟨CONSTANT, 0, 0⟩, ⟨VARIABLE, 0, 0⟩, ⟨POWER, 0, 1⟩], ["-2"]) := rfl
+/-- F11b repaired (third regex pass `negative_base_pattern`, `-N^` ↦ `-1 * N^`): `-2**X_0` is read as
+`(-1) * (2 ** X_0)` (the power binds tighter than the minus) -/
+example : tokenize "-2**X_0" = .ok ["-1", "*", "2", "^", "x_0"] := rfl
+example : parse "-2**X_0" =
+    .ok ([⟨CONSTANT, 0, 0⟩, ⟨INTEGER, 2, 2⟩, ⟨VARIABLE, 0, 0⟩, ⟨POWER, 1, 2⟩, ⟨MULTIPLICATION, 0, 3⟩],
+      ["-1"]) := rfl
+
+/-- an explicitly parenthesised negative base is still `(-2.0) ** X_0` -/
+example : parse "(-2)**X_0" =
+    .ok ([⟨CONSTANT, 0, 0⟩, ⟨VARIABLE, 0, 0⟩, ⟨POWER, 0, 1⟩], ["-2"]) := rfl
+
+/-- the lookbehind of the pass: the `-` of a float exponent is not a unary minus -/
+example : tokenize "1e-2**X_0" = .ok ["1e-2", "^", "x_0"] := rfl
+
+/-- the pass, pinned: at a `-` not blocked by the lookbehind and followed by digits and `^` it emits
+`-1 * `, the digits and `^`, and continues behind the `^` as on a fresh string -/
+theorem negativeBaseSub_spec (p2 p1 : Option Char) (hb : lookbehindBlocks p2 p1 = false)
+    (ds post : List Char) (hne : ds ≠ []) (hds : ∀ c ∈ ds, isReDigit c = true) :
+    negativeBaseGo 0 p2 p1 ('-' :: (ds ++ '^' :: post)) =
+      ['-', '1', ' ', '*', ' '] ++ ds ++ '^' :: negativeBaseSub post :=
+  NegBase.negativeBaseGo_spec p2 p1 hb ds post hne hds
+
+/-- a `-` preceded by the mantissa-and-`e` of a float literal is left alone -/
+theorem negativeBaseSub_blocked (p2 p1 : Option Char) (hb : lookbehindBlocks p2 p1 = true)
+    (r : List Char) :
+    negativeBaseGo 0 p2 p1 ('-' :: r) = '-' :: negativeBaseGo 0 p1 (some '-') r :=
+  NegBase.negativeBaseGo_blocked p2 p1 hb r
+
+/-- the pass is the identity on every string in which each `^` is immediately preceded by `)`, in particular
+on printed sympy strings (used by G) -/
+theorem negativeBaseSub_id (s : List Char) (h : Tkz.caretOK s = true) : negativeBaseSub s = s :=
+  Tkz.negativeBaseSub_id h
+
+example : String.ofList (negativeBaseSub "-12^x - 1e-5^y".toList) = "-1 * 12^x - 1e-5^y" := by decide
 
 /-- an explicit `C_0` and the first float literal share constant slot 0: `C_0 + 2.5` is read as
 `C_0 + C_0` with `C_0 = 2.5` (the single row `(1,0,0)` is shared) -/
